@@ -81,3 +81,37 @@ proof fn lemma_fnw(items: Seq<BItem>, c: int)
 {
     if 0 <= c < items.len() && items[c].tok is WhiteSpace { lemma_fnw(items, c + 1); }
 }
+// ---- parse_rules: the rule-list loop ----
+/// the items of a rule list, in order: what was tried on each
+pub enum RuleEv { At { first: bool, taken: bool }, Qualified }
+pub struct VxRuleLog { pub evs: Ghost<Seq<RuleEv>> }
+pub uninterp spec fn at_rule_taken(input: StepParser, n: int) -> bool;
+impl StyleSheetTransformer {
+    pub uninterp spec fn rules(&self) -> Seq<RuleEv>;
+}
+/// stand-in for parse_at_rule inside parse_rules: logs the attempt and whether it was the first item of the list
+#[verifier::external_body]
+fn parse_at_rule(input: &mut StepParser, ss: &mut StyleSheetTransformer, at_file_start: bool) -> (r: bool)
+    requires old(input).wf(),
+    ensures final(input).wf(), final(ss).rules() == old(ss).rules().push(RuleEv::At { first: at_file_start, taken: r }),
+{ unimplemented!() }
+#[verifier::external_body]
+fn parse_qualified_rule(input: &mut StepParser, ss: &mut StyleSheetTransformer)
+    requires old(input).wf(),
+    ensures final(input).wf(), final(ss).rules() == old(ss).rules().push(RuleEv::Qualified),
+{ unimplemented!() }
+/// Written from the properties: every item of a rule list is first offered to the at-rule parser and becomes a qualified
+/// rule exactly when that declines (C08: nothing dropped or taken twice); only the FIRST item of the list is at the start
+/// of the file (C18: an @import anywhere else is reported as misplaced).
+spec fn rules_ok(evs: Seq<RuleEv>) -> bool
+    decreases evs.len(),
+{
+    if evs.len() == 0 { true }
+    else {
+        match evs.last() {
+            RuleEv::Qualified =>
+                evs.len() >= 2 && evs[evs.len() - 2] == (RuleEv::At { first: evs.len() == 2, taken: false }) && rules_ok(evs.take(evs.len() - 2)),
+            RuleEv::At { first, taken } => taken && first == (evs.len() == 1) && rules_ok(evs.drop_last()),
+        }
+    }
+}
